@@ -108,3 +108,70 @@ async fn replay_f_c03a_expanded_single_node_needs_real_votes() {
         "candidate 1 won term 2 although the current membership has voters {{2,3}} and neither granted a vote"
     );
 }
+
+// ---------------------------------------------------------------------------------------------
+// F-C23a  an overwrite WITHOUT a TTL (plain put, or successful CAS) keeps the key's earlier TTL:
+//         the new value is deleted when the OLD TTL elapses (both engines)
+// ---------------------------------------------------------------------------------------------
+async fn f_c23a_overwrite_without_ttl_survives_old_ttl<S: d_engine_core::StateMachine>(
+    sm: &S,
+    lease: &crate::storage::TtlLease,
+    second: d_engine_core::Command,
+) -> Option<std::time::SystemTime> {
+    use bytes::Bytes;
+    use d_engine_core::{ApplyEntry, Command};
+    let first = ApplyEntry {
+        index: 1,
+        term: 1,
+        command: Command::Insert { key: Bytes::from_static(b"k"), value: Bytes::from_static(b"short-lived"), ttl_secs: Some(3600) },
+    };
+    sm.apply_chunk(&[first]).await.unwrap();
+    assert!(lease.get_expiration(b"k").is_some(), "the TTL put registers an expiry");
+    sm.apply_chunk(&[ApplyEntry { index: 2, term: 1, command: second }]).await.unwrap();
+    assert_eq!(sm.get(b"k").unwrap(), Some(Bytes::from_static(b"permanent")));
+    lease.get_expiration(b"k")
+}
+
+#[tokio::test]
+async fn replay_f_c23a_put_without_ttl_cancels_the_earlier_ttl_file_engine() {
+    use bytes::Bytes;
+    let dir = tempfile::TempDir::new().unwrap();
+    let mut sm = crate::storage::FileStateMachine::new(dir.path().to_path_buf()).await.unwrap();
+    let lease = Arc::new(crate::storage::TtlLease::new(d_engine_core::config::LeaseConfig::default()));
+    sm.set_lease(lease.clone());
+    sm.load_lease_data().await.unwrap();
+    let left = f_c23a_overwrite_without_ttl_survives_old_ttl(
+        &sm,
+        &lease,
+        d_engine_core::Command::Insert { key: Bytes::from_static(b"k"), value: Bytes::from_static(b"permanent"), ttl_secs: None },
+    )
+    .await;
+    assert!(
+        left.is_none(),
+        "put(k, ttl=3600) then put(k) without TTL: k still carries the first put's expiry {left:?}; the background cleanup will delete the permanent value"
+    );
+}
+
+#[tokio::test]
+async fn replay_f_c23a_successful_cas_cancels_the_earlier_ttl_file_engine() {
+    use bytes::Bytes;
+    let dir = tempfile::TempDir::new().unwrap();
+    let mut sm = crate::storage::FileStateMachine::new(dir.path().to_path_buf()).await.unwrap();
+    let lease = Arc::new(crate::storage::TtlLease::new(d_engine_core::config::LeaseConfig::default()));
+    sm.set_lease(lease.clone());
+    sm.load_lease_data().await.unwrap();
+    let left = f_c23a_overwrite_without_ttl_survives_old_ttl(
+        &sm,
+        &lease,
+        d_engine_core::Command::CompareAndSwap {
+            key: Bytes::from_static(b"k"),
+            expected: Some(Bytes::from_static(b"short-lived")),
+            value: Bytes::from_static(b"permanent"),
+        },
+    )
+    .await;
+    assert!(
+        left.is_none(),
+        "put(k, ttl=3600) then a successful CAS on k (no TTL): k still carries the first put's expiry {left:?}"
+    );
+}
